@@ -4,7 +4,7 @@
   every status check, every queue operation and every bank transfer of the two end-blockers succeeds.
   Part 1: definitions, the bank, and the settlement of one bet on the book.
 -/
-import SgeProofs.Lemmas.SettleBoundReach
+import SgeProofs.Lemmas.SettleBound
 namespace Sge.Core
 open Sge Sge.Genesis
 
@@ -416,5 +416,304 @@ theorem pool_covers_win {s : State} (hS : SettleInv s) (hH : HInv s) (hV : Solve
     simp only [Bool.false_eq_true, if_false]
     omega
   omega
+
+-- ---------------------------------------------------------------------------------------------
+-- settling one bet keeps well-formedness and solvency
+
+theorem wonOutcome_congr {s s' : State} (h : s'.markets = s.markets) (u o : Nat) : wonOutcome s' u o = wonOutcome s u o := by
+  unfold wonOutcome; rw [getMarket_congr h]
+
+theorem winsOn_congr {s s' : State} (h : s'.markets = s.markets) (u : Nat) (x : Bet) : winsOn s' u x = winsOn s u x := by
+  unfold winsOn; rw [wonOutcome_congr h]
+
+/-- the common end of the three settlement branches: the bet `bet` is replaced by its settled copy `bet'`, markets
+    stay, and at most one book `bk` is replaced by `B`, in which no participation disappears and realised profits
+    moved by at least minus the profit promised to `bet` if it wins -/
+theorem settle_keeps {s s' : State} {bet bet' : Bet} (hS : SettleInv s) (hH : HInv s) (hV : Solvent s)
+    (hlk : lookup Bet.key (Bet.key bet') s.bets = some bet) (hopen : bet.isOpen = true) (hst' : bet'.status = BS_SETTLED)
+    (hbets : s'.bets = upsert Bet.key bet' s.bets) (hmk : s'.markets = s.markets)
+    (hbooks : s'.books = s.books ∨ ∃ bk B, getBook s B.uid = some bk ∧ s'.books = upsert Book.key B s.books ∧ KeepsParts bk B ∧
+      (∀ p' ∈ B.parts, ∃ p ∈ bk.parts, ∃ d, PartMoved p p' d ∧
+        0 ≤ d + (if winsOn s bk.uid bet then cProfit bet.fulfs p.idx else 0))) : HInv s' ∧ Solvent s' := by
+  have hclosed : bet'.isOpen = false := by unfold Bet.isOpen; rw [hst']; rfl
+  have hbm : bet ∈ s.bets := (lookup_mem hlk).1
+  have hmem : ∀ y ∈ s'.bets, y = bet' ∨ y ∈ s.bets := by
+    intro y hy; rw [hbets] at hy; exact mem_upsert_or Bet.key bet' y s.bets hy
+  -- the promise to the participations drops by what was promised to `bet`
+  have hprom : ∀ u i, promisedW s' u i = promisedW s u i - (if winsOn s u bet then cProfit bet.fulfs i else 0) := by
+    intro u i
+    unfold promisedW
+    rw [hbets, sumBy_upsert Bet.key _ bet' s.bets hS.sortedBets, hlk]
+    simp only [winsOn_congr hmk]
+    have : winsOn s u bet' = false := by unfold winsOn; rw [hclosed]; rfl
+    simp only [this, Bool.false_eq_true, if_false]
+    omega
+  have hcnn : ∀ u i, 0 ≤ (if winsOn s u bet then cProfit bet.fulfs i else 0) := by
+    intro u i
+    split
+    · exact cProfit_nonneg _ _ (fun f hf => ((hV.betNonneg bet hbm hopen).2 f hf).2)
+    · exact Int.le_refl _
+  -- the books
+  have hbk : ∀ b' ∈ s'.books, ∃ b0 ∈ s.books, b'.uid = b0.uid ∧ ∀ p' ∈ b'.parts, ∃ p ∈ b0.parts, ∃ d, PartMoved p p' d ∧
+      0 ≤ d + (if winsOn s b0.uid bet then cProfit bet.fulfs p.idx else 0) := by
+    intro b' hb'
+    have hsame : b' ∈ s.books → ∃ b0 ∈ s.books, b'.uid = b0.uid ∧ ∀ p' ∈ b'.parts, ∃ p ∈ b0.parts, ∃ d, PartMoved p p' d ∧
+        0 ≤ d + (if winsOn s b0.uid bet then cProfit bet.fulfs p.idx else 0) := by
+      intro hin
+      refine ⟨b', hin, rfl, fun p hp => ⟨p, hp, 0, ⟨rfl, rfl, rfl, rfl, by omega⟩, ?_⟩⟩
+      have := hcnn b'.uid p.idx
+      omega
+    rcases hbooks with e | ⟨bk, B, hg, e, _, hparts⟩
+    · rw [e] at hb'; exact hsame hb'
+    · rw [e] at hb'
+      rcases mem_upsert_or Book.key B b' s.books hb' with rfl | hin
+      · obtain ⟨hbkm, hbku⟩ := getBook_mem hg
+        exact ⟨bk, hbkm, hbku.symm, hparts⟩
+      · exact hsame hin
+  have hgb : ∀ u b0, getBook s u = some b0 → ∃ b', getBook s' u = some b' ∧ KeepsParts b0 b' := by
+    intro u b0 h0
+    rcases hbooks with e | ⟨bk, B, hg, e, hk, _⟩
+    · exact ⟨b0, by rw [getBook_congr e]; exact h0, KeepsParts.refl b0⟩
+    · by_cases hu : B.uid = u
+      · subst hu
+        rw [hg] at h0; cases h0
+        refine ⟨B, ?_, hk⟩
+        unfold getBook; rw [e]
+        exact lookup_upsert_self Book.key B s.books
+      · refine ⟨b0, ?_, KeepsParts.refl b0⟩
+        unfold getBook; rw [e]
+        rw [lookup_upsert_ne Book.key B [u] s.books (by simp [Book.key, hu])]
+        exact h0
+  refine ⟨⟨?_, by rw [hmk]; exact hH.marketStatus, ?_⟩, ⟨?_, ?_⟩⟩
+  · intro y hy
+    rcases hmem y hy with rfl | hy
+    · exact Or.inr hst'
+    · exact hH.betStatus y hy
+  · intro y hy hyo f hf
+    rcases hmem y hy with rfl | hy
+    · rw [hclosed] at hyo; cases hyo
+    · obtain ⟨b0, p, h1, h2⟩ := hH.fulfParts y hy hyo f hf
+      obtain ⟨b', h3, hk⟩ := hgb _ _ h1
+      have := hk f.idx (by rw [h2]; rfl)
+      obtain ⟨p', hp'⟩ := Option.isSome_iff_exists.mp this
+      exact ⟨b', p', h3, hp'⟩
+  · intro y hy hyo
+    rcases hmem y hy with rfl | hy
+    · rw [hclosed] at hyo; cases hyo
+    · exact hV.betNonneg y hy hyo
+  · intro b' hb' p' hp' hun
+    obtain ⟨b0, hb0, hu, hparts⟩ := hbk b' hb'
+    obtain ⟨p, hp, d, ⟨m1, m2, m3, m4, m5⟩, hd⟩ := hparts p' hp'
+    have hun0 : p.isSettled = false := by rw [← m4]; exact hun
+    obtain ⟨c1, c2⟩ := hV.partCover b0 hb0 p hp hun0
+    rw [hu, m1, hprom, m2, m3, m5]
+    exact ⟨c1, by omega⟩
+
+theorem cBet_nonneg (fs : List Fulf) (i : Nat) (h : ∀ f ∈ fs, 0 ≤ f.bet) : 0 ≤ cBet fs i := by
+  unfold cBet
+  apply sumBy_nonneg
+  intro f hf
+  split
+  · exact h f hf
+  · exact Int.le_refl _
+
+/-- a successful `Settle` keeps well-formedness and solvency -/
+theorem settleBet_keeps {s s' : State} {c u : Nat} (hS : SettleInv s) (hH : HInv s) (hV : Solvent s)
+    (h : settleBet s c u = some s') : HInv s' ∧ Solvent s' := by
+  unfold settleBet at h
+  simp only [bind, Option.bind_eq_some_iff] at h
+  obtain ⟨bet0, _, bet, hb, _, hst, m, hm, h⟩ := h
+  have hst := chk_some hst
+  obtain ⟨hbm, hkey⟩ := lookup_mem hb
+  have hns : bet.status ≠ BS_SETTLED := by
+    intro e; simp [e] at hst
+  have hopen : bet.isOpen = true := by
+    unfold Bet.isOpen
+    simpa using hns
+  have hlk : ∀ (R H : Nat), lookup Bet.key (Bet.key { bet with status := BS_SETTLED, result := R, settleHeight := H }) s.bets = some bet := by
+    intro R H
+    show lookup Bet.key (Bet.key bet) s.bets = some bet
+    rw [hkey]; exact hb
+  split at h
+  · -- refund
+    unfold settleRefund at h
+    simp only [bind, Option.bind_eq_some_iff, pure, Option.some.injEq] at h
+    obtain ⟨s1, h1, s2, h2, rfl⟩ := h
+    obtain ⟨_, _, rfl⟩ := bankSend_shape h1
+    obtain ⟨_, _, rfl⟩ := bankSend_shape h2
+    exact settle_keeps hS hH hV (hlk BR_REFUNDED s.height) hopen rfl rfl rfl (Or.inl rfl)
+  · -- declared result
+    simp only [Option.bind_eq_some_iff] at h
+    obtain ⟨_, hd, h⟩ := h
+    have hd : m.status = MS_DECLARED := by simpa using chk_some hd
+    unfold settleDeclared at h
+    simp only [bind, Option.bind_eq_some_iff, pure, Option.some.injEq] at h
+    obtain ⟨bk, hbk, r, hr, s2, h2, rfl⟩ := h
+    obtain ⟨_, _, rfl⟩ := bankSend_shape h2
+    obtain ⟨hbkm, hbku⟩ := getBook_mem hbk
+    have hsb := hS.sortedParts bk hbkm
+    have hnn := (hV.betNonneg bet hbm hopen).2
+    have hbooks : ∃ bk0 B, getBook s B.uid = some bk0 ∧ (setBook { s with bal := r.1 } r.2).books = upsert Book.key B s.books ∧
+        KeepsParts bk0 B ∧ (∀ p' ∈ B.parts, ∃ p ∈ bk0.parts, ∃ d, PartMoved p p' d ∧
+          0 ≤ d + (if winsOn s bk0.uid bet then cProfit bet.fulfs p.idx else 0)) := by
+      unfold settleOutcome at hr
+      split at hr
+      · rename_i hwon
+        obtain ⟨a1, _, _, _⟩ := bettorWins_same _ _ _ _ _ hr hsb
+        obtain ⟨b1, b2⟩ := bettorWins_parts _ _ _ _ _ hr hsb
+        refine ⟨bk, r.2, by rw [a1, hbku]; exact hbk, rfl, b2, ?_⟩
+        intro p' hp'
+        obtain ⟨p, hp, hm'⟩ := b1 p' hp'
+        refine ⟨p, hp, _, hm', ?_⟩
+        have hw : winsOn s bk.uid bet = true := by
+          unfold winsOn wonOutcome
+          rw [hopen, hbku, hm]
+          simp only [hd, hwon]
+          simp
+        rw [if_pos hw]
+        omega
+      · simp only [Option.map_eq_some_iff] at hr
+        obtain ⟨b', hb', rfl⟩ := hr
+        obtain ⟨a1, _, _, _⟩ := bettorLoses_same _ _ _ hb' hsb
+        obtain ⟨b1, b2⟩ := bettorLoses_parts _ _ _ hb' hsb
+        refine ⟨bk, b', by rw [a1, hbku]; exact hbk, rfl, b2, ?_⟩
+        intro p' hp'
+        obtain ⟨p, hp, hm'⟩ := b1 p' hp'
+        refine ⟨p, hp, _, hm', ?_⟩
+        have h1 := cBet_nonneg bet.fulfs p.idx (fun f hf => (hnn f hf).1)
+        have h2 : 0 ≤ (if winsOn s bk.uid bet then cProfit bet.fulfs p.idx else 0) := by
+          split
+          · exact cProfit_nonneg _ _ (fun f hf => (hnn f hf).2)
+          · exact Int.le_refl _
+        omega
+    exact settle_keeps hS hH hV (hlk _ s.height) hopen rfl rfl rfl (Or.inr hbooks)
+
+theorem chk_true {c : Bool} (h : c = true) : chk c = some () := by
+  unfold chk; rw [h]; rfl
+
+theorem isResolvedStatus_cases {st : Nat} (h : isResolvedStatus st = true) :
+    st = MS_CANCELED ∨ st = MS_ABORTED ∨ st = MS_DECLARED := by
+  unfold isResolvedStatus at h
+  simp only [Bool.or_eq_true, beq_iff_eq] at h
+  rcases h with (h | h) | h
+  · exact Or.inl h
+  · exact Or.inr (Or.inl h)
+  · exact Or.inr (Or.inr h)
+
+/-- the status of a resolved market is one of the three resolved statuses -/
+theorem resolved_status {s : State} (hH : HInv s) {u : Nat} {m : Market} (hm : getMarket s u = some m) (hr : m.resolved) :
+    m.status = MS_CANCELED ∨ m.status = MS_ABORTED ∨ m.status = MS_DECLARED := by
+  rcases hH.marketStatus m (getMarket_mem hm) with h | h
+  · exact absurd hr (by unfold Market.resolved; rw [h]; exact fun e => nomatch e)
+  · exact isResolvedStatus_cases h
+
+/-- C05: in a well-formed, solvent reachable state, `Settle` called for an entry of the pending index whose market
+    waits in the market queue SUCCEEDS: the bet is found under both keys and is not settled, its market is resolved,
+    its book and every backing participation exist, and every transfer (refund of stake and fee; or stake + profit
+    of every part to the winner and the fee to the market creator) is a non-negative amount the paying account holds -/
+theorem settleBet_succeeds {s : State} (hI : BetIdx s) (hS : SettleInv s) (hQ : QInv s) (hH : HInv s) (hV : Solvent s)
+    (x : Nat × Nat × Nat × Nat) (hx : x ∈ s.pending) (hq : x.1 ∈ s.mqueue) :
+    ∃ s', settleBet s x.2.2.2 x.2.2.1 = some s' := by
+  obtain ⟨b, hb, hns, rfl⟩ := hI.ofPend x hx
+  have hopen : b.isOpen = true := by
+    unfold Bet.isOpen
+    simpa using hns
+  have hpl : b.status = BS_PLACED := by
+    rcases hH.betStatus b hb with h | h
+    · exact h
+    · exact absurd h hns
+  -- the two look-ups
+  have hfind : s.bets.find? (fun y => y.uid == b.uid) = some b := by
+    cases hf : s.bets.find? (fun y => y.uid == b.uid) with
+    | none =>
+      rw [List.find?_eq_none] at hf
+      have := hf b hb
+      simp at this
+    | some b0 =>
+      have h1 := List.mem_of_find?_eq_some hf
+      have h2 : b0.uid = b.uid := by simpa using List.find?_some hf
+      rw [hI.uidInj b0 h1 b hb h2]
+  have hlook : lookup Bet.key [b.creator, b.id] s.bets = some b := lookup_of_mem_sorted Bet.key b s.bets hI.sBets hb
+  -- market and custody
+  obtain ⟨m, hm, hres⟩ := hS.queueResolved b.market hq
+  have hst := resolved_status hH hm hres
+  obtain ⟨n1, n2, n3⟩ := isModuleAcc_false_ne (hS.bettorsUser b hb)
+  have hfee : 0 ≤ b.fee ∧ b.fee ≤ getBal s.bal ACC_BETFEE := by
+    refine ⟨(hV.betNonneg b hb hopen).1, ?_⟩
+    rw [hS.betFee]
+    have := sumBy_mem_le Bet.owedFee s.bets (fun y hy => (hV.stake_nonneg y hy).2) b hb
+    have e : b.owedFee = b.fee := by unfold Bet.owedFee; rw [hopen]; rfl
+    rw [e] at this
+    exact this
+  show ∃ s', settleBet s b.creator b.uid = some s'
+  suffices hbody : ∃ s', (if (m.status == MS_ABORTED || m.status == MS_CANCELED) = true then settleRefund s b
+      else (chk (m.status == MS_DECLARED)).bind fun _ => settleDeclared s b m) = some s' by
+    obtain ⟨s', hs'⟩ := hbody
+    refine ⟨s', ?_⟩
+    unfold settleBet
+    simp only [bind, Option.bind_eq_some_iff]
+    exact ⟨b, hfind, b, hlook, (), chk_true (by rw [hpl]; decide), m, hm, hs'⟩
+  by_cases hrf : (m.status == MS_ABORTED || m.status == MS_CANCELED) = true
+  · -- refund of stake and fee
+    have hamt : 0 ≤ b.amount ∧ b.amount ≤ getBal s.bal ACC_POOL := by
+      rw [hS.stake b hb]
+      refine ⟨sumBet_nonneg _ (fun f hf => ((hV.betNonneg b hb hopen).2 f hf).1), ?_⟩
+      rw [hS.pool]
+      unfold owedPool
+      have h1 := sumBy_mem_le Bet.owedStake s.bets (fun y hy => (hV.stake_nonneg y hy).1) b hb
+      have h2 := sumBy_nonneg Book.owed s.books (fun bk hbk => (hV.book_nonneg bk hbk).1)
+      have e : b.owedStake = sumBet b.fulfs := by unfold Bet.owedStake; rw [hopen]; rfl
+      rw [e] at h1
+      omega
+    obtain ⟨s1, h1⟩ := bankSend_ok s ACC_POOL b.creator b.amount hamt.1 hamt.2
+    obtain ⟨bal1, rfl, _, _, _, o1⟩ := bankSend_spec h1 (Ne.symm n1)
+    obtain ⟨s2, h2⟩ := bankSend_ok { s with bal := bal1 } ACC_BETFEE b.creator b.fee hfee.1
+      (by rw [o1 ACC_BETFEE (by decide) (Ne.symm n2)]; exact hfee.2)
+    rw [if_pos hrf]
+    unfold settleRefund
+    simp only [bind, Option.bind_eq_some_iff, pure, Option.some.injEq]
+    exact ⟨_, _, h1, s2, h2, rfl⟩
+  · -- declared result
+    have hd : m.status = MS_DECLARED := by
+      rcases hst with h | h | h
+      · rw [h] at hrf; exact absurd rfl hrf
+      · rw [h] at hrf; exact absurd rfl hrf
+      · exact h
+    obtain ⟨bk, hbk, _⟩ := statusOf_some (hQ.mActive b.market hq)
+    obtain ⟨hbkm, hbku⟩ := getBook_mem hbk
+    have hparts : ∀ f ∈ b.fulfs, (bk.getPart f.idx).isSome = true := by
+      intro f hf
+      obtain ⟨b0, p, h1, h2⟩ := hH.fulfParts b hb hopen f hf
+      rw [hbk] at h1; cases h1
+      rw [h2]; rfl
+    have hnn := (hV.betNonneg b hb hopen).2
+    have hmu := isModuleAcc_false_ne (hS.creatorsUser m (getMarket_mem hm))
+    have hout : ∃ r, settleOutcome s.bal (m.winners.contains b.odds) b.creator bk b.fulfs = some r ∧
+        getBal r.1 ACC_BETFEE = getBal s.bal ACC_BETFEE := by
+      unfold settleOutcome
+      cases hw : m.winners.contains b.odds
+      · obtain ⟨b', hb'⟩ := bettorLoses_ok b.fulfs bk hparts
+        exact ⟨(s.bal, b'), by simp [hb'], rfl⟩
+      · have hwon : wonOutcome s b.market b.odds = true := by
+          unfold wonOutcome; rw [hm]
+          simp only [hd, hw]
+          simp
+        obtain ⟨r, hr⟩ := bettorWins_ok b.creator (Ne.symm n1) b.fulfs s.bal bk hparts
+          (fun f hf => by have := hnn f hf; omega) (pool_covers_win hS hH hV hb hopen hbk hwon)
+        obtain ⟨_, _, _, _, _, _, _, _, a9, _⟩ := bettorWins_spec b.creator (hS.bettorsUser b hb) _ _ _ _ hr
+          (hS.sortedParts bk hbkm) (open_bet_book hS hb hopen hbk).2
+        exact ⟨r, by simp [hr], a9⟩
+    obtain ⟨r, hr, hbf⟩ := hout
+    obtain ⟨s2, h2⟩ := bankSend_ok (setBook { s with bal := r.1 } r.2) ACC_BETFEE m.creator b.fee hfee.1
+      (by show b.fee ≤ getBal r.1 ACC_BETFEE; rw [hbf]; exact hfee.2)
+    have hdecl : ∃ s', settleDeclared s b m = some s' := by
+      unfold settleDeclared
+      simp only [bind, Option.bind_eq_some_iff, pure, Option.some.injEq]
+      exact ⟨_, bk, hbk, r, hr, s2, h2, rfl⟩
+    obtain ⟨s', hs'⟩ := hdecl
+    rw [if_neg hrf]
+    refine ⟨s', ?_⟩
+    simp only [Option.bind_eq_some_iff]
+    exact ⟨(), chk_true (by rw [hd]; rfl), hs'⟩
 
 end Sge.Core
